@@ -46,6 +46,24 @@ func resampleSpecs(thorough bool) []composeSpec {
 			}})
 		}
 	}
+	// a line that is a prefix of a longer buffer: the spare capacity holds other points, which must not come back
+	for _, N := range []int{3, 4} {
+		N := N
+		cases = append(cases, composeCase{fmt.Sprintf("2 vertices (capacity 4) to %d points", N), func(it *Interp, s *State) ([]AV, interface{}) {
+			ln := it.buildGeom(s, pts("LineString", 4)).(SliceV)
+			ln.Hi = 2
+			ctx := &resampleCtx{N: N}
+			for _, e := range s.heap[ln.Arr].(ArrV).Elems[:2] {
+				pt := pointTerms(it, e)
+				ctx.pts = append(ctx.pts, pt)
+				ctx.ids = append(ctx.ids, identString(e))
+				ax, _ := atomOf(pt[0])
+				ay, _ := atomOf(pt[1])
+				ctx.coord = append(ctx.coord, [2]int{ax, ay})
+			}
+			return []AV{ln, FuncV{Fn: it.p.funcByShortKey("planar.Distance")}, intOf(int64(N))}, ctx
+		}})
+	}
 	return []composeSpec{{
 		entry:   "resample.Resample",
 		desc:    "N points: the line's first vertex, then for k = 1..N-2 the point of the original line at k/(N-1) of its length (on segment i at p = (k/(N-1)*total - d_0-..-d_{i-1})/d_i), then its last vertex; a line whose vertices all coincide is padded or cut to N copies",
